@@ -183,6 +183,49 @@ def shard_i(prop: str, tier: str, seed: int, family: str, which: str) -> dict[st
     return c.export()
 
 
+def ctl_scenarios() -> dict[str, dict[str, Any]]:
+    """Workflow-level control messages racing a workflow-level status writer (two workers, one message each)."""
+    from vlib.spec import ok, stage
+
+    one = {"name": "one", "stages": [stage("a", [], [ok()])]}
+    two = {"name": "two", "stages": [stage("a", [], [ok()]), stage("b", ["a"], [ok()])]}
+    return {
+        "cancel-vs-completeworkflow": {"spec": one, "hold": "CompleteWorkflow:|CancelWorkflow:", "workers": 2, "kind": "cancel", "cancel_when": "CompleteWorkflow:"},
+        "cancel-vs-startworkflow": {"spec": one, "hold": "StartWorkflow:|CancelWorkflow:", "workers": 2, "kind": "cancel", "cancel_when": "StartWorkflow:"},
+        "cancel-vs-last-completestage": {"spec": two, "hold": "CompleteStage:b|CancelWorkflow:", "workers": 2, "kind": "cancel", "cancel_when": "CompleteStage:b"},
+        "cancel-vs-first-completestage": {"spec": two, "hold": "CompleteStage:a|CancelWorkflow:", "workers": 2, "kind": "cancel", "cancel_when": "CompleteStage:a"},
+    }
+
+
+def shard_ctl(prop: str, tier: str, seed: int, which: str) -> dict[str, Any]:
+    """All schedules with <= P pre-emptions of the two racing handlers, then a FIFO drain; every audit row judged."""
+    from checks import c07
+    from vlib.engine_d import Schedule
+    from vlib.engine_i import explore, handle_one
+
+    c = Campaign(prop, tier, seed, LEVEL)
+    sc = ctl_scenarios()[which]
+    prep = c07.prepare_pair(sc)
+    if sorted(k for k in prep["pending"] if k in set(sc["hold"].split("|"))) != sorted(sc["hold"].split("|")):
+        c.harness_error(f"ctl scenario {which}: held messages not both pending: {prep['pending']}")
+        return c.export()
+    mk = c07.make_pair_world(prep, sc)
+    P = 2 if tier == "quick" else 3
+
+    def j(w, s, pre):  # noqa: ANN001
+        run = Run(sc["spec"], Schedule(), world=w, max_steps=1500)
+        run.steps = 1000
+        run.drain()
+        judge_audit(c, w.audit(), {"engine": "I", "scenario": f"ctl:{which}", "preemptions": {str(k): v for k, v in sorted(pre.items())}},
+                    [f"scenario:ctl:{which}", f"ctl-preemptions:{len(pre)}"], "I")
+        final = w.scalar("SELECT status FROM pipeline_executions WHERE id = 'W1'")
+        c.count(f"ctl:{which}:final:{final}")
+
+    cnt = explore(mk, lambda w: [handle_one() for _ in range(sc["workers"])], j, max_preemptions=P, max_runs=6000)
+    c.extra[f"exhaustive:ctl:{which}"] = f"all schedules with <= {P} pre-emptions of 2 workers: {cnt}"
+    return c.export()
+
+
 def _dispatch(fn, a):  # noqa: ANN001
     return fn(*a)
 
@@ -210,11 +253,14 @@ def run(c: Campaign, jobs: int) -> None:
         args.append((shard_i, (c.prop, c.tier, c.seed, "c11", which)))
     for which in _c07.pair_scenarios():
         args.append((shard_i, (c.prop, c.tier, c.seed, "c07", which)))
+    for which in ctl_scenarios():
+        args.append((shard_ctl, (c.prop, c.tier, c.seed, which)))
     run_shards(c, _dispatch, args, jobs)
+    c.exhaustive_parts += [f"{k[len('exhaustive:'):]}: {v}" for k, v in sorted(c.extra.items()) if k.startswith("exhaustive:ctl:")]
     c.rule = ("evaluations = durable status changes (audit rows with old != new) observed over all runs; distinct_nontrivial = distinct "
               "(entity kind, old, new, handler that wrote it) tuples observed. Runs: engine D specs x schedules x injected cancel / signal / "
               "recovery sweep / duplicate StartStage; operator pause/unpause around parallel branches with ResumeStage held back; engine K crash+recovery at sampled (thorough: all) commit points of 16 corpus specs; "
-              "engine I racing-worker scenarios.")
+              "engine I racing-worker scenarios, plus workflow-level control races (CancelWorkflow against StartWorkflow / CompleteWorkflow / a CompleteStage) with bounded-exhaustive pre-emption.")
     c.assumptions += [
         "audit rows come from AFTER UPDATE OF status / AFTER INSERT triggers installed by the harness; the 'writer' is the message type being handled when the row was written",
         "the published table is imported from stabilize.models.status at run time (a change to the table itself is not detected here)",
@@ -225,10 +271,47 @@ def run(c: Campaign, jobs: int) -> None:
             c.harness_error(f"generator starvation: class {cls} never produced")
 
 
+def _replay_i(case: dict[str, Any]) -> list[tuple[Any, ...]]:
+    from vlib.engine_d import Schedule
+    from vlib.engine_i import handle_one, run_schedule
+
+    family, which = case["scenario"].split(":", 1)
+    pre = {int(k): v for k, v in case["preemptions"].items()}
+    if family == "ctl":
+        from checks import c07
+
+        sc = ctl_scenarios()[which]
+        mk, progs = c07.make_pair_world(c07.prepare_pair(sc), sc), (lambda w_: [handle_one() for _ in range(sc["workers"])])
+    elif family == "c07":
+        from checks import c07
+
+        sc = c07.pair_scenarios()[which]
+        mk, progs = c07.make_pair_world(c07.prepare_pair(sc), sc), (lambda w_: [handle_one() for _ in range(sc["workers"])])
+    else:
+        import importlib
+
+        mod = importlib.import_module(f"checks.{family}")
+        sc = mod.scenarios()[which]
+        mk, progs = mod.make_world_factory(mod.prepare(sc)), mod.programs_for(sc)
+    w, _s = run_schedule(mk, progs, pre)
+    run_ = Run(sc["spec"], Schedule(), world=w, max_steps=1500)
+    run_.steps = 1000
+    run_.drain()
+    return w.audit()
+
+
 def replay(c: Campaign, rec: dict[str, Any]) -> int:
     case = rec["case"]
+    if case.get("engine") == "I":
+        audit = _replay_i(case)
+        viol = oracles.check_transitions(audit)
+        for b, d in viol:
+            print(f"VIOLATION property={c.prop} replay=given\n  bucket: {b}\n  detail: {d}")
+        if not viol:
+            print("replay: no violation")
+        return 1 if viol else 0
     if case.get("engine") != "D":
-        print("replay of K/I cases: re-run the campaign (the case names the spec and crash index / schedule)")
+        print("replay of K cases: re-run the campaign (the case names the spec and crash index)")
         return 2
     run_ = Run(case["spec"], make_schedule(case["schedule"]))
     apply_injections(run_, case["spec"], case["inj"])
